@@ -2,6 +2,7 @@ import Driver.Util
 import RainModel.Model.Blocklist
 import RainModel.Model.AddrList
 import RainModel.Model.Admission
+import RainModel.Model.AdmissionRun
 /-!
 Suite `admission` (C18): the real dial / accept decision code of package `torrent` on a bare
 torrent value (see `suite_admission.go`).  Model = `Model/Admission` with both repairs
@@ -120,14 +121,17 @@ def step (d : DSt) (op implObs : String) : DSt × String × List String × List 
     let now := d.clock + 1
     let tags := dtag ++ (if cands.any fun c => d.s.banned.contains c.ip then ["branch:push-banned"] else []) ++
       (if cands.any (filtered (envOf d)) then ["branch:push-filtered"] else [])
-    match handleNewPeers d.cfg blocked (envOf d) stableSort d.s cands src now with
+    -- (through `Rain.Admission.step`, the transition function the history theorems of `Props/C01Admission` are about)
+    match Rain.Admission.step d.cfg blocked d.s (.peers (envOf d) stableSort cands src now) with
     | .error e => fin { d with clock := now } s!"panic:{e}" dv tags
-    | .ok (s', dial) =>
-      fin { d with s := s', clock := now } s!"ok p={showNatList prios} {tailOf s' dial}" dv tags
+    | .ok (s', o) =>
+      fin { d with s := s', clock := now } s!"ok p={showNatList prios} {tailOf s' o.dialled}" dv tags
   | some "accept" =>
     if !d.ready then fin d "no-torrent" [] [] else
     let ip := kvNat toks "ip"
-    let (s', v) := handleNewConnection d.cfg blocked d.s ip
+    let (s', v) := match Rain.Admission.step d.cfg blocked d.s (.accept ip) with
+      | .ok (s', o) => (s', o.verdict.getD .limit)
+      | .error _ => (d.s, .limit)
     let implBlocked := d.hasBl && Rain.Blocklist.inRules d.implRules ip
     let viol := if res = "accept" then
         (if d.implConn.contains ip then [s!"C18 accept-connected-ip ip={ip}"] else []) ++
@@ -144,9 +148,9 @@ def step (d : DSt) (op implObs : String) : DSt × String × List String × List 
     match parseAddrs (kvStr toks "addr") with
     | [a] =>
       if d.s.outgoing.contains a then
-        match outgoingGone d.cfg blocked d.s a with
+        match Rain.Admission.step d.cfg blocked d.s (.hsfail a) with
         | .error e => fin d s!"panic:{e}" dv dtag
-        | .ok (s', dial) =>
+        | .ok (s', ⟨dial, _⟩) =>
           let tags := dtag ++ (if d.s.queue.entries.any fun q => d.s.banned.contains q.ip then
             ["branch:banned-ip-queued-at-dial"] else []) ++
             (if d.s.queue.entries.any fun q => d.cfg.blOutgoing && blocked q.ip then
@@ -158,8 +162,9 @@ def step (d : DSt) (op implObs : String) : DSt × String × List String × List 
     if !d.ready then fin d "no-torrent" [] [] else
     let ip := kvNat toks "ip"
     if d.s.incoming.contains ip then
-      let s' := incomingGone d.s ip
-      fin { d with s := s' } ("ok " ++ tailOf s' []) dv []
+      match Rain.Admission.step d.cfg blocked d.s (.infail ip) with
+      | .error e => fin d s!"panic:{e}" dv []
+      | .ok (s', _) => fin { d with s := s' } ("ok " ++ tailOf s' []) dv []
     else fin d ("none " ++ tailOf d.s []) dv []
   | some "ban" =>
     if !d.ready then fin d "no-torrent" [] [] else
@@ -175,8 +180,9 @@ def step (d : DSt) (op implObs : String) : DSt × String × List String × List 
     fin { d with bl := bl', implRules := implRules } (okS ++ tailOf d.s []) dv ["branch:reload"]
   | some "complete" =>
     if !d.ready then fin d "no-torrent" [] [] else
-    let s' := { d.s with completed := kvBool toks "v" }
-    fin { d with s := s' } ("ok " ++ tailOf s' []) dv []
+    match Rain.Admission.step d.cfg blocked d.s (.complete (kvBool toks "v")) with
+    | .error e => fin d s!"panic:{e}" dv []
+    | .ok (s', _) => fin { d with s := s' } ("ok " ++ tailOf s' []) dv []
   | _ => fin d "unknown-op" [] []
 
 def suite : Suite where
